@@ -329,9 +329,24 @@ def run_polars(rep, rng, n):
     except Exception:  # noqa: BLE001
         rep.count("polars:unavailable")
         return
-    for _ in range(n):
+    for it in range(n):
         c = gen_case(rng, drop_rate=0.0)
         S, D = c["schema"], c["frame"]
+        if it % 4 == 0:
+            # directed: an ordered schema whose frame lacks a declared column that is *not* the last one, to be inserted by
+            # add_missing_columns (the returned frame has to carry it at its place)
+            c = P.gen_case(rng, regex_rate=0.0, index_schema_rate=0.0, conform_bias=1.0, max_rows=4)
+            S, D = c["schema"], c["frame"]
+            S.update(ordered=True, addMissing=True, strict="no", coerce=False)
+            declared = [sp for sp in S["columns"] if sp["regex"] is None and sp["dtype"] in A.POOL]
+            present = [col["name"] for col in D["cols"]]
+            cand = [sp for sp in declared[:-1] if sp["name"] in present]
+            if len(declared) >= 2 and cand and [n_ for n_ in present if n_ in {sp["name"] for sp in declared}] == [sp["name"] for sp in declared if sp["name"] in present]:
+                sp = rng.choice(cand)
+                D["cols"] = [col for col in D["cols"] if col["name"] != sp["name"]]
+                sp["default"] = rng.choice(A.POOL[sp["dtype"]])
+                sp["checks"] = []
+                sp["unique"] = False
         if not D["cols"]:
             continue
         S["index"] = None
